@@ -46,6 +46,9 @@ extern unsigned char hm_last_msg[HMAX];
 extern size_t hm_last_len;
 extern unsigned hm_nfinal;
 
+/* ---- inplace_alloc.c -------------------------------------------------------------------- */
+extern void *ip_ptr; extern size_t ip_size; extern int ip_over; extern unsigned ip_nrealloc;
+
 /* ---- zstd stub --------------------------------------------------------------------------- */
 extern int zs_strategy_set, zs_level_set, zs_compress_calls, zs_compress_before_strategy;
 extern int zs_loaddict_calls, zs_dict_loaded_at_compress[8];
